@@ -17,6 +17,10 @@ ENTRIES = {
   text="Lean theorems over the reals about the functions regenerated from modelling/*.py on every run (tie lemmas Gen = published equation, then per model: pressure(loading p) = p and converse, zero point incl. the 0/0 point of the quadratic inverses, sign, strict monotonicity on the validity range, saturation bound, Henry limit; injectivity of the pressure-explicit models as the specification of the numerical inverses). Float copies of the same generated text are run against the Python originals; the property oracle runs on the real classes.",
   note=TB + "Partial where the truth is numerical: scipy.optimize inverses (TSLangmuir, Temkin, Jensen-Seaton, Virial, VST) are specified by residual and checked only where the library reports success; IEEE rounding per the tolerance table. BET/GAB inverse needs N != C (C != 1). Known finding S24 (Virial.loading returns a non-root with success); S1 fixed.",
   technique="Lean 4 proof about translator-generated definitions (real analysis in Mathlib), translator validation by execution, property-oracle failing-input search"),
+ "C11": dict(
+  text="Lean theorems over the reals: for every closed-form spreading pressure regenerated from the code (Henry, Langmuir, DS/TS-Langmuir, BET, GAB, Quadratic, Freundlich, TemkinApprox) p*dPi/dp = n(p), Pi(0)=0 and Pi->0, Pi(b)-Pi(a) = integral of n/x, strict monotonicity; for point isotherms the exact fold of spreading_pressure_at (hand-written model, run against the real method in exact rationals) equals the integral of the Henry-continued piecewise-linear interpolant for any number of points, with additivity, monotonicity and p*Pi' = interpolant as corollaries.",
+  note=TB + "Partial: the quad-based models (Toth, Jensen-Seaton, DR, DA) are compared with an independent quadrature of the class's own loading/x (scipy.integrate.quad is residue); IEEE rounding. Known finding S13 (TemkinApprox offset n_m*theta/2, proved as a witness); S7, S14 fixed.",
+  technique="Lean 4 proof (HasDerivAt / interval integrals in Mathlib) about translator-generated definitions and a correspondence-checked fold model; quadrature oracle as failing-input search"),
  "C20": dict(
   text="Registry regenerated from adsorbates.json and default.db; kernel-decided: no alias occurs twice (n log n sorted check lifted by a proved lemma), JSON list = database, every adsorbate found by its own name; proved for every registry: unique aliases => find returns the owner, absent key => not found; fallback logic of the accessors never silent. Exhaustive correspondence of Adsorbate.find and the isotherm constructor over every alias x 4 case variants.",
   note=TB + "Partial: CoolProp consistency (rho = rho_bar*M, p_triple <= p_sat <= p_crit, monotone, h_vap > 0, units, call-order independence) is measured, not proved. String -> key encoding is the translator's, re-derived in Lean at run time. S17, S21 fixed.",
